@@ -6,9 +6,11 @@ package main
 // {state values} x {CSRF cookie sets}; identity-provider nonce behaviours; PKCE; leak scan.
 
 import (
+	"crypto/rand"
 	"encoding/base64"
 	"encoding/hex"
 	"fmt"
+	"io"
 	"net/url"
 	"strings"
 	"time"
@@ -151,7 +153,7 @@ func init() {
 			A := newBrowser()
 			var ls []*startedLogin
 			for i := 0; i < nLogins; i++ {
-				if sl := e.startOne(A, "A", fmt.Sprintf("/after/%d?q=%d", i, i)); sl != nil {
+				if sl := e.startOne(A, "A", fmt.Sprintf("/after/%d?from=09:00&to=17:%d0", i, i)); sl != nil {
 					ls = append(ls, sl)
 				}
 			}
@@ -179,6 +181,22 @@ func init() {
 					c.violation("C05", "challenge sent although no method configured", sl.location)
 				}
 				c.count("pkce:" + lc.pkce)
+			}
+			seenState := map[string]bool{}
+			for _, sl := range append(append([]*startedLogin{}, ls...), lb) {
+				if sl.plain == nil {
+					continue
+				}
+				for what, v := range map[string]string{"state nonce": string(sl.plain.State), "OIDC nonce": string(sl.plain.Nonce)} {
+					if len(v) != 32 {
+						c.violation("C05", "a started login does not carry a 32-byte "+what, map[string]interface{}{"len": len(v), "location": sl.location})
+					}
+					if seenState[what+v] {
+						c.violation("C05", what+" repeated across logins (not fresh)", map[string]interface{}{"location": sl.location, "cfg": fmt.Sprintf("%+v", cfg)})
+					}
+					seenState[what+v] = true
+				}
+				c.count("c05:fresh-check")
 			}
 			seenVer := map[string]bool{}
 			for _, sl := range append(append([]*startedLogin{}, ls...), lb) {
@@ -261,6 +279,8 @@ func init() {
 				for _, st := range []struct{ name, state string }{
 					{"state-other-browser", lb.state}, {"state-tampered", tamperMid(sl.state)}, {"state-empty", ""},
 					{"state-nocolon", "abcdef"}, {"state-redirect-swapped", swapRedirect(sl.state, lc.enc, "//evil.example")},
+					{"state-nonce-last-char-sibling", mutateNonce(sl.state, lc.enc, "sibling")}, {"state-nonce-newline", mutateNonce(sl.state, lc.enc, "newline")},
+					{"state-nonce-crlf-end", mutateNonce(sl.state, lc.enc, "crlf")}, {"state-nonce-padded", mutateNonce(sl.state, lc.enc, "pad")},
 				} {
 					s := st.state
 					target, g := e.callbackFor(sl, u, &s)
@@ -331,10 +351,53 @@ func init() {
 					c.violation("C05", "ID token with a wrong/absent/raw/replayed nonce yielded a session", map[string]interface{}{"mode": mode, "cfg": fmt.Sprintf("%+v", cfg), "response": real})
 				}
 			}
+			// randomness faults at every read position of `start`: either an error page, or a login whose
+			// nonces are present and fresh — never a login with an empty nonce
+			for k := 1; k <= 4; k++ {
+				b := newBrowser()
+				restore := failRandAt(k)
+				sr, loc := e.startLogin(b, "/r")
+				restore()
+				c.casen(fmt.Sprintf("c05|rand|%+v|%d", lc, k), fmt.Sprintf("rand read %d fails => %d", k, sr.Status))
+				c.count("c05:rand-fault")
+				if sr.Status == 302 {
+					q, _ := url.Parse(loc)
+					bad := q.Query().Get("state") == "" || strings.HasPrefix(q.Query().Get("state"), ":") || (!lc.skipNonce && q.Query().Get("nonce") == "")
+					for n, v := range b.jar {
+						if strings.HasSuffix(n, "_csrf") {
+							if p, ok := indepDecodeCSRF(e.opts.Cookie.Secret, v); ok && (len(p.State) != 32 || len(p.Nonce) != 32) {
+								bad = true
+							}
+						}
+					}
+					if bad {
+						c.violation("C05", "a randomness failure produced a login with an empty / missing nonce instead of an error", map[string]interface{}{"failed_read": k, "location": loc, "cfg": fmt.Sprintf("%+v", cfg)})
+					}
+				}
+			}
+			// an identity without e-mail that the provider itself does not refuse (providers built on the
+			// ProviderData defaults): the e-mail restriction must still refuse it at issuance
+			{
+				b := newBrowser()
+				sl := e.startOne(b, "E", "/e")
+				if sl != nil {
+					e.proxy.provider.(*recProvider).forceEnrichOK = true
+					target, _ := e.callbackFor(sl, idpUser{Sub: "no-email-user"}, nil)
+					v, real := e.serveCase(reqSpec{Target: target, Cookie: b.cookieHeader()}, nil, "login:no-email-enrich-forced")
+					e.proxy.provider.(*recProvider).forceEnrichOK = false
+					if v != nil {
+						c.casen(fmt.Sprintf("c08|noemail|%+v", lc), real)
+						c.count("c08:no-email")
+						if hasSessionSet(v, e.opts.Cookie.Name) {
+							c.violation("C08", "a login whose identity has no e-mail got a session although an e-mail rule is configured", map[string]interface{}{"response": real})
+						}
+					}
+				}
+			}
 			e.close()
 		}
 		_ = time.Now
-		c.close([]string{"c03:established", "c03:rejected", "c03:state-variant", "nonce:echo", "nonce:raw", "pkce:S256", "kind:redirect", "kind:errorPage"})
+		c.close([]string{"c03:established", "c03:rejected", "c03:state-variant", "nonce:echo", "nonce:raw", "pkce:S256", "kind:redirect", "kind:errorPage", "c05:rand-fault", "c05:fresh-check", "c08:no-email"})
 	})
 }
 
@@ -393,4 +456,60 @@ func challengeOf(method, v string) (string, bool) {
 		return b64u(sha256sum([]byte(v))), true
 	}
 	return "", false
+}
+
+// mutateNonce alters only the NONCE part of a state string in ways a lax comparison might accept
+func mutateNonce(state string, enc bool, how string) string {
+	raw := state
+	if enc {
+		b, _ := base64.RawURLEncoding.DecodeString(state)
+		raw = string(b)
+	}
+	i := strings.Index(raw, ":")
+	if i < 2 {
+		return state + "x"
+	}
+	nonce, rest := raw[:i], raw[i:]
+	const alpha = "ABCDEFGHIJKLMNOPQRSTUVWXYZabcdefghijklmnopqrstuvwxyz0123456789-_"
+	switch how {
+	case "sibling":
+		// the last character of a 43-character unpadded base64 string carries 2 spare bits
+		last := strings.IndexByte(alpha, nonce[len(nonce)-1])
+		if last >= 0 {
+			sib := (last &^ 3) | ((last + 1) & 3)
+			nonce = nonce[:len(nonce)-1] + string(alpha[sib])
+		}
+	case "newline":
+		nonce = nonce[:len(nonce)/2] + "\n" + nonce[len(nonce)/2:]
+	case "crlf":
+		nonce = nonce + "\r\n"
+	case "pad":
+		nonce = nonce + "="
+	}
+	raw = nonce + rest
+	if enc {
+		return base64.RawURLEncoding.EncodeToString([]byte(raw))
+	}
+	return raw
+}
+
+type failingReader struct {
+	inner io.Reader
+	n     int
+	at    int
+}
+
+func (f *failingReader) Read(p []byte) (int, error) {
+	f.n++
+	if f.n == f.at {
+		return 0, fmt.Errorf("verif: injected entropy failure")
+	}
+	return f.inner.Read(p)
+}
+
+// failRandAt makes the at-th read of crypto/rand.Reader fail; returns the restore function
+func failRandAt(at int) func() {
+	old := rand.Reader
+	rand.Reader = &failingReader{inner: old, at: at}
+	return func() { rand.Reader = old }
 }
